@@ -443,7 +443,7 @@ class _Multipart:
 def _raise_for_status(response, chunk_name, ignored_errors):
     """Turn error responses into appropriate exceptions, like raise_for_status."""
     status = response.status_code
-    if 400 <= status < 600 and status not in ignored_errors:
+    if 300 <= status < 600 and status not in ignored_errors:
         # Construct error message, including detailed response content if sensible
         prefix = f'Chunk {chunk_name!r}: ' if chunk_name else ''
         msg = (f'{prefix}Store responded with HTTP error {status} ({response.reason}) '
